@@ -676,6 +676,12 @@ class Env:
 _BUILTIN_TYPES = {"dict": dict, "list": list, "str": str, "int": int, "tuple": tuple, "bool": bool, "set": set}
 
 
+# census of what the folder actually walked in this process (merged from the pool workers by sweep.run_cells): bodies of project functions
+# folded statement by statement, and project functions replaced by a rule-supplied summary
+FOLDED = set()
+SUMMARISED = set()
+
+
 class Evaluator:
     def __init__(self, proj, colour="numeric", overrides=None, opaque_calls=None, on_call=None,
                  on_compare=None, lenient_ext=False, ext_calls=None):
@@ -977,9 +983,10 @@ class Evaluator:
             return _NativeFn(v) if callable(v) else v
         if isinstance(obj, (str, list, dict, tuple, set, range)):
             try:
-                return _NativeFn(getattr(obj, attr))
+                v = getattr(obj, attr)
             except AttributeError:
                 raise Raised("AttributeError", f"{type(obj).__name__} has no attribute {attr}", node)
+            return _NativeFn(v) if callable(v) else v  # (a data attribute of a native container subclass, e.g. the names held by an npz archive)
         raise Undecided(f"attribute {attr} of {type(obj).__name__}")
 
     def default_getattr(self, obj, attr, node):
@@ -1485,6 +1492,7 @@ class Evaluator:
         fi = fv.finfo
         summ = self.summaries.get(fi.fq)
         if summ is not None:
+            SUMMARISED.add(fi.fq)
             if fv.bound is not None and not fi.is_static:
                 return summ(self, fv.bound, *args, **kwargs)
             return summ(self, *args, **kwargs)
@@ -1494,6 +1502,7 @@ class Evaluator:
             r = self.on_call(self, fv, args, kwargs)
             if r is not NotImplemented:
                 return r
+        FOLDED.add(fi.fq)
         if getattr(fi, "other_decorators", None) and id(fi) not in self.__dict__.get("_decorated", ()):
             raise Undecided(f"function {fi.name} is wrapped by a decorator the folder gives no meaning to ({fi.other_decorators[0][:40]})")
         if getattr(fi, "memo_decorator", None) and not getattr(fv, "_memo_bypass", False):
